@@ -95,6 +95,18 @@ def run_ops(ctx: Ctx, n_cases: int):
         Xt, X64 = U.to_dtype_exact(Xrows, dtype)
         X = P.LieTensor(Xt.reshape(sa + (U.GDIM[name],)), ltype=U.ltype(name))
         X64 = X64.reshape(sa + (U.GDIM[name],))
+        layout = rng.choice(["contig", "contig", "strided", "block"])
+        if layout != "contig" and len(sa) >= 1 and na > 0:
+            # the same values as a non-contiguous view of a larger buffer (results must not depend on the layout)
+            if layout == "strided":
+                buf = torch.full((sa[0] * 2,) + tuple(sa[1:]) + (U.GDIM[name],), 7.0, dtype=Xt.dtype)
+                buf[::2] = X.tensor()
+                X = P.LieTensor(buf[::2], ltype=U.ltype(name))
+            else:
+                buf = torch.full(tuple(sa) + (U.GDIM[name] + 3,), 7.0, dtype=Xt.dtype)
+                buf[..., 1:1 + U.GDIM[name]] = X.tensor()
+                X = P.LieTensor(buf[..., 1:1 + U.GDIM[name]], ltype=U.ltype(name))
+        x_before = X.tensor().clone()
         case["X"] = X64.tolist()
         ctx.count(f"ops.{op}.{name}")
         sig = ("ops", op, name, dtype, tuple(sorted(set(tags)))[:3], sa, sb)
@@ -205,6 +217,9 @@ def run_ops(ctx: Ctx, n_cases: int):
         except Exception as e:
             ctx.fail(case, f"raises: {op} on {name} raised {type(e).__name__}: {str(e)[:150]}")
             continue
+        if not torch.equal(X.tensor(), x_before):
+            ctx.fail(case, f"mutation: {op} on {name} changed its LieTensor argument (layout {layout})")
+        ctx.count(f"ops.layout.{layout}")
         ctx.note_case(sig, True)
         ctx.sample({k: case[k] for k in ("op", "type", "dtype", "shape_a", "shape_b")} | {"regimes": tags[:3]}, cap=8)
     reps = ctx.driver.run(lines)
@@ -260,6 +275,9 @@ def law_case(ctx: Ctx, case) -> bool:
                 r *= max(s, 1.0 / s)
         return r
     try:
+        sq1, sq2 = X @ X, X @ X.clone()      # the same object passed as both operands
+        if not torch.equal(sq1.tensor(), sq2.tensor()):
+            ctx.fail(case, f"alias: X@X differs from X@X.clone() for {name} ({dtype})")
         a = (X @ Y) @ Z
         b = X @ (Y @ Z)
         if float(tdist(name, a, b).max()) > 4 * t0 * mags(X, Y, Z):
